@@ -492,7 +492,11 @@ impl<'a> GenCtx<'a> {
                 let n = if leafy { 0 } else { gen_len(self.r, &self.k.clone(), &LEN_BOUNDARY, self.k.max_len) };
                 let et = wire_type(e);
                 let n = self.cap_len(n, et);
-                let xs: Vec<TV> = (0..n).map(|_| self.of_ty(sc, ev, e, depth + 1)).collect();
+                let mut xs: Vec<TV> = (0..n).map(|_| self.of_ty(sc, ev, e, depth + 1)).collect();
+                // a set element that occurs twice
+                if matches!(t, Ty::Set(_)) && !xs.is_empty() && self.r.chance(1, 6) {
+                    xs.push(xs[0].clone());
+                }
                 if matches!(t, Ty::List(_)) {
                     TV::List(et, xs)
                 } else {
@@ -503,7 +507,13 @@ impl<'a> GenCtx<'a> {
                 let n = if leafy { 0 } else { gen_len(self.r, &self.k.clone(), &LEN_BOUNDARY, self.k.max_len) };
                 let (kt, vt) = (wire_type(k), wire_type(v));
                 let n = self.cap_len(n, kt).min(self.cap_len(n, vt));
-                let kv = (0..n).map(|_| (self.of_ty(sc, ev, k, depth + 1), self.of_ty(sc, ev, v, depth + 1))).collect();
+                let mut kv: Vec<(TV, TV)> = (0..n).map(|_| (self.of_ty(sc, ev, k, depth + 1), self.of_ty(sc, ev, v, depth + 1))).collect();
+                // a key that occurs twice (legal on the wire; the decoder replaces and drops the first value)
+                if !kv.is_empty() && self.r.chance(1, 6) {
+                    let k0 = kv[0].0.clone();
+                    let v2 = self.of_ty(sc, ev, v, depth + 1);
+                    kv.push((k0, v2));
+                }
                 TV::Map(kt, vt, kv)
             }
             Ty::Struct(n) => {
